@@ -13,6 +13,7 @@ import (
 	"strconv"
 	"sync"
 	"sync/atomic"
+	"syscall"
 	"time"
 )
 
@@ -78,9 +79,10 @@ type Run struct {
 	Rule        string
 
 	// watchdog
-	cur  []atomic.Value
-	tick []uint64
-	busy []int32
+	external int32 // >0 while waiting for a child process
+	cur      []atomic.Value
+	tick     []uint64
+	busy     []int32
 }
 
 func NewRun(prop, tier string) *Run {
@@ -245,9 +247,32 @@ func (r *Run) watchdog() {
 	for i := range since {
 		since[i] = time.Now()
 	}
+	// sequential phases (outside ParallelFor) are watched through the process's
+	// own CPU time: a main goroutine that is BLOCKED (a channel send nobody
+	// receives, a lock) burns none
+	cpuAt, cpuSince := processCPU(), time.Now()
 	for {
 		time.Sleep(2 * time.Second)
 		now := time.Now()
+		anyBusy := false
+		for w := range r.busy {
+			if atomic.LoadInt32(&r.busy[w]) != 0 {
+				anyBusy = true
+			}
+		}
+		if c := processCPU(); anyBusy || atomic.LoadInt32(&r.external) != 0 || c-cpuAt > 500*time.Millisecond {
+			cpuAt, cpuSince = c, now
+		} else if now.Sub(cpuSince) > Stall {
+			desc := r.lastNote()
+			r.Violate("hang", "sequential:"+fmt.Sprint(desc), fmt.Sprintf("no progress for %v in a sequential phase of the check: the engine blocks on this case (the process used no CPU)", Stall), desc)
+			r.Capped("aborted by hang watchdog")
+			r.Finish()
+		}
+		// an outer guard for everything else (a busy loop on the main goroutine)
+		if !r.Deadline.IsZero() && now.Sub(r.Start) > 6*r.Deadline.Sub(r.Start) {
+			r.Capped(fmt.Sprintf("the run was cut off at six times its time budget (last note: %v)", r.lastNote()))
+			r.Finish()
+		}
 		for w := range r.tick {
 			t := atomic.LoadUint64(&r.tick[w])
 			if t != last[w] || atomic.LoadInt32(&r.busy[w]) == 0 {
@@ -262,6 +287,34 @@ func (r *Run) watchdog() {
 			}
 		}
 	}
+}
+
+// External runs fn while the check legitimately waits for something outside
+// this process (a child process building or running): the sequential-phase
+// watchdog is suspended meanwhile.
+func (r *Run) External(fn func()) {
+	atomic.AddInt32(&r.external, 1)
+	defer atomic.AddInt32(&r.external, -1)
+	fn()
+}
+
+func processCPU() time.Duration {
+	var ru syscall.Rusage
+	if err := syscall.Getrusage(syscall.RUSAGE_SELF, &ru); err != nil {
+		return 0
+	}
+	return time.Duration(ru.Utime.Nano() + ru.Stime.Nano())
+}
+
+// lastNote is the most recent Note of any worker slot (what the check was
+// working on).
+func (r *Run) lastNote() interface{} {
+	for w := range r.cur {
+		if d := r.cur[w].Load(); d != nil {
+			return d
+		}
+	}
+	return "no note recorded"
 }
 
 // ParallelFor runs fn(worker, i) for i in [0,n) on all workers, handing out
